@@ -32,8 +32,26 @@
 (* cross-sender order is chosen per receiver where the code is sensitive   *)
 (* to it (phase 3 and phase 10 messages).                                  *)
 (*                                                                         *)
-(* Fixes is the set of repairs (see /verif/proposed_fixes) the modelled    *)
-(* code contains; Fixes = {} is the pinned code.                           *)
+(* fixes (chosen from FixSets) is the set of repairs the modelled code      *)
+(* contains; {} is the code as pinned, in which TLC finds the violations    *)
+(* that were reproduced on the real code (see /verif/proposed_fixes and the *)
+(* `fix:` commits of /repo):                                               *)
+(*   F1  points of a member whose misbehaviour is confirmed in state 9 are *)
+(*       forgotten, so every member reconstructs its key        (83585a2)  *)
+(*   F7  state-8 accusations are resolved against the broadcast points,    *)
+(*       also those that were invalid for the resolving member  (83585a2)  *)
+(*   F2  an accusation against oneself disqualifies the accuser instead of *)
+(*       hitting the fatal "could not find public key" error    (cc6e57e)  *)
+(*   F3  state 11: "key of an operating member" is evaluated against a     *)
+(*       fixed operating set; a key for a non-QUAL / non existent / own    *)
+(*       index disqualifies the revealer instead of the fatal error; a     *)
+(*       reconstructed key is not summed for a member whose valid points   *)
+(*       are held                              (7e0e1be, 435bff2, 4581092) *)
+(*   F4  a shares message is judged against the members operating when the *)
+(*       verification starts                                    (30b131a)  *)
+(*   F5  accusation states admit the senders operating when the state      *)
+(*       began                                                  (d957384)  *)
+(*   F6  only the first reveal message of a sender is used      (2f518ac)  *)
 (***************************************************************************)
 EXTENDS Integers, Sequences, FiniteSets, TLC, SequencesExt, FiniteSetsExt
 
